@@ -20,9 +20,6 @@ import shutil
 
 from vlib import Inconclusive, SPEC
 
-QUERIES_PER_FIELD = None  # filled from the universe
-
-
 # ----------------------------------------------------------------------------- TLC output helpers
 def _obj(x):
     """TLC prints an empty function as []"""
@@ -83,6 +80,7 @@ def run_oracle(ctx, cfg_name, states, bounds=None, label="oracle", timeout=900):
     lst = list(states.values())
     res = ctx.tlc("kvindex", "KVIndex", "oracle.cfg", workers=8, timeout=timeout, count=False, label=label,
                   files={"oracle.cfg": oracle_cfg(cfg_text, bounds), "KVIndexStates.tla": states_module(lst)})
+    run_oracle.universe = uni_norm(res.msgs["universe"][0])
     ans = {}
     for m in res.msgs.get("ans", []):
         ans[skey(norm_state(m["s"]))] = _obj(m["x"])
@@ -104,7 +102,7 @@ def cmp_set(method, got, want, extra="stale", missing="missing"):
         return (method, "duplicate-" + ("ids" if method.startswith("GetTermMatch") else "entries"))
     e, m = gs - want, want - gs
     if e and m:
-        return (method, "wrong-" + extra.split("-")[-1] if False else "%s+%s" % (extra, missing))
+        return (method, "%s+%s" % (extra, missing))
     if e:
         return (method, extra)
     if m:
@@ -203,8 +201,8 @@ def compare_field(x, b):
 
 
 class Comparer:
-    def __init__(self, ctx, answers, defs):
-        self.ctx, self.answers, self.defs = ctx, answers, defs
+    def __init__(self, answers, defs):
+        self.answers, self.defs = answers, defs
         self.cache = {}
         self.compared = 0
 
@@ -232,7 +230,7 @@ class Comparer:
         return out
 
 
-# ----------------------------------------------------------------------------- one configuration
+# ----------------------------------------------------------------------------- replay
 def shm_dir(ctx):
     return os.path.join("/dev/shm", os.path.basename(ctx.scratch))
 
@@ -255,100 +253,151 @@ def obs_last(n):
     return [False] * (n - 1) + [True]
 
 
-def replay_and_compare(ctx, name, universe, behaviours, answers, emb="halves", jobs=8, qtimeout=10, timeout=1500,
-                       corrupt=False):
-    """behaviours: list of dict(steps=[ops], states=[(skey, state) per step], obs=[bool per step], sched=str).
-    Replays them and records the first divergence of each behaviour."""
-    setup = dict(setup=True, fields=universe["fields"], terms=universe["terms"], bounds=universe["bounds"], emb=emb,
-                 qtimeout_s=qtimeout)
-    lines = [setup] + [dict(i=i, steps=b["steps"], obs=b["obs"]) for i, b in enumerate(behaviours)]
-    inp = ctx.write_ndjson("kvidx_%s_in.ndjson" % name, lines)
+class Beh:
+    """One replay: a history, the abstract state after each step, an observation schedule."""
+    __slots__ = ("steps", "states", "obs", "sched")
+
+    def __init__(self, steps, states, obs, sched):
+        self.steps, self.states, self.obs, self.sched = steps, states, obs, sched
+
+
+def execute(ctx, name, universe, behaviours, emb, jobs=8, qtimeout=10, timeout=1500, fresh=False):
+    """Runs the behaviours through harness/kvidx; returns (responses by index, observation bodies by id)."""
+    inp = os.path.join(ctx.scratch, "kvidx_%s_in.ndjson" % name)
+    with open(inp, "w") as fh:
+        fh.write(json.dumps(dict(setup=True, fields=universe["fields"], terms=universe["terms"], ranges=universe["ranges"],
+                                 emb=emb, qtimeout_s=qtimeout), separators=(",", ":")) + "\n")
+        for i, b in enumerate(behaviours):
+            req = dict(i=i, steps=b.steps, obs=b.obs)
+            if fresh:
+                req["fresh"] = True
+            fh.write(json.dumps(req, separators=(",", ":")) + "\n")
     outp = inp.replace("_in.", "_out.")
     ctx.harness(["kvidx", "-j", str(jobs), "-timeout", "120s"], input_path=inp, output_path=outp, timeout=timeout,
                 env=shm_env(ctx))
     outs, defs = {}, {}
     for o in ctx.read_ndjson(outp):
         if "i" in o:
-            outs[o["i"]] = o
-            for k, v in (o.get("defs") or {}).items():
+            for k, v in (o.pop("defs", None) or {}).items():
                 defs[k] = v
+            outs[o["i"]] = o
     if len(outs) != len(behaviours):
         raise Inconclusive("harness answered %d of %d behaviours" % (len(outs), len(behaviours)))
-    if corrupt:
-        # self-test of the binding: falsify one expected value
-        for k, x in answers.items():
-            for f, a in x.items():
-                if a["counts"]:
-                    a["counts"][0]["c"] += 1
-                    break
-            else:
-                continue
-            break
-    cmpr = Comparer(ctx, answers, defs)
-    found = {}  # signature -> [count, [examples]]
-    nontrivial = 0
-    observations = 0
+    if not ctx.keep:
+        os.unlink(inp)
+        os.unlink(outp)
+    return outs, defs
+
+
+def first_divergence(b, o, cmpr, emb):
+    """The first step of behaviour b at which the real index departs from the spec, as
+    (signature, what, replay object), or None.  Also returns the number of observations compared."""
+    if "harness_err" in o:
+        raise Inconclusive("harness: %s" % o["harness_err"])
+    if "died" in o:
+        raise Inconclusive("worker died without a Go panic: %s" % o.get("trace", "")[-500:])
+    base = dict(steps=b.steps, obs=b.obs, emb=emb)
+    if "crash" in o or "hang" in o:
+        kind = "crash" if "crash" in o else "hang"
+        return ("kvindex %s: %s" % (kind, o[kind]), "a history made the index code %s" % kind,
+                dict(base, trace=o.get("trace", "")[-3000:])), 0
+    errs = {e["k"]: e for e in o.get("errs", [])}
+    pan = o.get("panic")
+    nobs = 0
+    for k in range(len(b.steps)):
+        cut = dict(steps=b.steps[:k + 1], obs=b.obs[:k + 1], emb=emb, step=k)
+        if pan and pan["k"] == k:
+            site = re.sub(r"0x[0-9a-f]+|\d+", "N", pan["panic"].splitlines()[0])[:100]
+            return ("kvindex panic in %s: %s" % (pan["op"], site), "panic in the calling goroutine",
+                    dict(cut, panic=pan["panic"][:2000])), nobs
+        if k in errs:
+            e = errs[k]
+            cls = re.sub(r"[^ -~]", "?", e["err"])
+            return ("kvindex.%s returns error" % e["op"],
+                    "%s failed (%s) on a history the property covers: the operation is not performed"
+                    % (e["op"], cls[:120]), dict(cut, error=cls)), nobs
+        if not b.obs[k]:
+            continue
+        oid = o["o"][k] if k < len(o.get("o", [])) else None
+        if oid is None:
+            raise Inconclusive("step %d was to be observed but was not" % k)
+        nobs += 1
+        sk, st = b.states[k]
+        probs = cmpr.problems(sk, st, oid)
+        if probs:
+            m, shape, detail = probs[0]
+            also = ", ".join(sorted({"%s %s" % (p[0], p[1]) for p in probs[1:]})) or "nothing"
+            return ("kvindex.%s %s" % (m, shape),
+                    "%s differs from the scan of the live documents (%s) after step %d = %s [observed %s]; also differing there: %s"
+                    % (m, shape, k + 1, json.dumps(b.steps[k]), b.sched, also),
+                    dict(cut, live=st, query=m, detail=detail, sched=b.sched)), nobs
+    return None, nobs
+
+
+def nontrivial(b):
+    for k, (sk, st) in enumerate(b.states):
+        if b.obs[k] and st and st["fields"] and any(set(v) & set(st["fields"]) for v in st["docs"].values()):
+            return True
+    return False
+
+
+def corrupt_answers(answers):
+    """self-test of the binding: falsify one expected count"""
+    for k, x in answers.items():
+        for f, a in x.items():
+            if a["counts"]:
+                a["counts"][0]["c"] += 1
+                return
+
+
+def replay_and_compare(ctx, name, universe, behaviours, answers, emb="halves", jobs=8, qtimeout=10, timeout=1500):
+    """Screening: all behaviours in per-behaviour namespaces of shared stores.  Verdict: the shortest
+    divergent behaviours of every signature are re-run alone on a fresh, empty store; only what
+    reproduces there is reported as a divergence."""
+    if os.environ.get("C09_SELFTEST_CORRUPT") == "1":
+        corrupt_answers(answers)
+    outs, defs = execute(ctx, name, universe, behaviours, emb, jobs=jobs, qtimeout=qtimeout, timeout=timeout)
+    cmpr = Comparer(answers, defs)
+    found = {}  # signature -> [count, [(length, behaviour index)]]
+    observations = nt = 0
     for i, b in enumerate(behaviours):
-        o = outs[i]
-        if "harness_err" in o:
-            raise Inconclusive("harness: %s" % o["harness_err"])
-        if "died" in o:
-            raise Inconclusive("worker died without a Go panic: %s" % o.get("trace", "")[-500:])
-        first = None
-        if "crash" in o or "hang" in o:
-            kind = "crash" if "crash" in o else "hang"
-            first = ("kvindex %s: %s" % (kind, o[kind]), "a history made the index code %s" % kind,
-                     dict(steps=b["steps"], obs=b["obs"], emb=emb, trace=o.get("trace", "")[-3000:]))
-        errs = {e["k"]: e for e in o.get("errs", [])}
-        pan = o.get("panic")
-        nt = False
-        for k in range(len(b["steps"])):
-            if first:
-                break
-            if pan and pan["k"] == k:
-                site = re.sub(r"0x[0-9a-f]+|\d+", "N", pan["panic"].splitlines()[0])[:100]
-                first = ("kvindex panic in %s: %s" % (pan["op"], site), "panic in the calling goroutine",
-                         dict(steps=b["steps"][:k + 1], obs=b["obs"][:k + 1], emb=emb, panic=pan["panic"][:2000]))
-                break
-            if k in errs:
-                e = errs[k]
-                cls = re.sub(r"[\x00-\x1f]|[^ -~]", "?", e["err"])
-                cls = re.sub(r"(key|document) \S+", r"\1 _", cls)[:80]
-                first = ("kvindex.%s returns error" % e["op"],
-                         "%s failed (%s) on a history the property covers; the operation is not performed" % (e["op"], cls),
-                         dict(steps=b["steps"][:k + 1], obs=b["obs"][:k + 1], emb=emb, step=k, error=e["err"]))
-                break
-            oid = o["o"][k] if k < len(o.get("o", [])) else None
-            if not b["obs"][k]:
-                continue
-            if oid is None:
-                raise Inconclusive("behaviour %d: step %d was to be observed but was not" % (i, k))
-            observations += 1
-            sk, st = b["states"][k]
-            if st["fields"] and any(set(v) & set(st["fields"]) for v in st["docs"].values()):
-                nt = True
-            probs = cmpr.problems(sk, st, oid)
-            if probs:
-                m, shape, detail = probs[0]
-                first = ("kvindex.%s %s" % (m, shape),
-                         "%s differs from the scan of the live documents (%s) after step %d = %s [observed: %s]; also differing here: %s"
-                         % (m, shape, k + 1, json.dumps(b["steps"][k]), b["sched"],
-                            ", ".join(sorted({"%s %s" % (p[0], p[1]) for p in probs[1:]})) or "nothing"),
-                         dict(steps=b["steps"][:k + 1], obs=b["obs"][:k + 1], emb=emb, step=k, live=st, query=m, detail=detail))
-        nontrivial += 1 if nt else 0
+        first, nobs = first_divergence(b, outs[i], cmpr, emb)
+        observations += nobs
+        if nontrivial(b):
+            nt += 1
         if first:
             ent = found.setdefault(first[0], [0, []])
             ent[0] += 1
-            ent[1].append((len(first[2].get("steps", [])), first))
-    for sig, (n, exs) in sorted(found.items()):
-        exs.sort(key=lambda e: e[0])
-        for _, (s, what, rep) in exs[:4]:
-            ctx.diverge(s, "%s (%d behaviours of %s)" % (what, n, name), rep)
+            ent[1].append((len(first[2]["steps"]), i))
+    del outs
     ctx.log("%s[%s]: %d behaviours, %d observations (%d distinct state/answer pairs compared), %d divergent: %s" % (
         name, emb, len(behaviours), observations, cmpr.compared, sum(v[0] for v in found.values()),
         {k: v[0] for k, v in found.items()} or "none"))
-    nq = len(universe["terms"]) * 2 + 8 + len([1 for a in universe["bounds"] for c in universe["bounds"] if a <= c])
-    return dict(behaviours=len(behaviours), observations=observations, nontrivial=nontrivial,
+    # confirmation on fresh stores
+    cand = []
+    for sig, (n, exs) in sorted(found.items()):
+        exs.sort()
+        for _, i in exs[:3]:
+            cand.append((sig, n, behaviours[i]))
+    if cand:
+        outs2, defs2 = execute(ctx, name + "_confirm", universe, [c[2] for c in cand], emb, jobs=min(4, len(cand)),
+                               qtimeout=qtimeout, timeout=600, fresh=True)
+        cmpr2 = Comparer(answers, defs2)
+        confirmed = set()
+        for j, (sig, n, b) in enumerate(cand):
+            first, _ = first_divergence(b, outs2[j], cmpr2, emb)
+            if first and first[0] == sig:
+                confirmed.add(sig)
+                ctx.diverge(sig, "%s (first divergence of %d behaviours of %s)" % (first[1], n, name), first[2])
+            elif first and first[0] != sig and first[0] not in found:
+                # alone on an empty store the behaviour departs in another way: that is what reproduces
+                confirmed.add(sig)
+                ctx.diverge(first[0], "%s (%s, seen as '%s' among other behaviours)" % (first[1], name, sig), first[2])
+        lost = [sig for sig in found if sig not in confirmed]
+        if lost:
+            raise Inconclusive("divergences seen in the shared store did not reproduce on a fresh store: %s" % lost)
+    nq = len(universe["terms"]) + 8 + len(universe["ranges"])
+    return dict(behaviours=len(behaviours), observations=observations, nontrivial=nt,
                 queries=observations * nq * max(1, len(universe["fields"])), divergent={k: v[0] for k, v in found.items()})
 
 
@@ -377,13 +426,15 @@ def gen_exhaustive(ctx, cfg):
             kk = by_h[json.dumps(h[:j], sort_keys=True)][1]
             sts.append((kk, states[kk]))
         if len(h) == maxlen:
-            behaviours.append(dict(steps=h, states=sts, obs=obs_all(len(h)), sched="after every step"))
+            behaviours.append(Beh(h, sts, obs_all(len(h)), "after every step"))
         if len(h) >= 2:
-            behaviours.append(dict(steps=h, states=sts, obs=obs_last(len(h)), sched="only after the last step"))
+            behaviours.append(Beh(h, sts, obs_last(len(h)), "only after the last step"))
     return uni, states, behaviours, dict(histories=len(by_h), maxlen=maxlen, tlc_states=res.distinct)
 
 
-def gen_walks(ctx, cfg, num, depth, seed=None):
+def gen_walks(ctx, cfg, num, seed=None):
+    with open(os.path.join(SPEC, "kvindex", cfg)) as fh:
+        depth = int(re.search(r"MaxLen = (\d+)", fh.read()).group(1))
     res = ctx.tlc("kvindex", "KVIndex", cfg, workers=8, timeout=900, simulate="num=%d" % num, depth=depth + 1,
                   seed=seed, label="random walks")
     uni = res.msgs["universe"][0]
@@ -407,60 +458,109 @@ def gen_walks(ctx, cfg, num, depth, seed=None):
             sts.append((k, states[k]))
         n = len(h)
         mask = [ctx.rng.random() < 0.3 for _ in range(n - 1)] + [True]
-        behaviours.append(dict(steps=h, states=sts, obs=obs_all(n), sched="after every step"))
-        behaviours.append(dict(steps=h, states=sts, obs=obs_last(n), sched="only after the last step"))
-        behaviours.append(dict(steps=h, states=sts, obs=mask, sched="after a random subset of the steps"))
+        behaviours.append(Beh(h, sts, obs_all(n), "after every step"))
+        behaviours.append(Beh(h, sts, obs_last(n), "only after the last step"))
+        behaviours.append(Beh(h, sts, mask, "after a random subset of the steps"))
     return uni, states, behaviours, dict(histories=len(seen), maxlen=depth)
 
 
 def uni_norm(u):
-    return dict(fields=sorted(u["fields"]), docs=sorted(u["docs"]), terms=sorted(u["terms"], key=tk), bounds=sorted(u["bounds"]))
+    return dict(fields=sorted(u["fields"]), docs=sorted(u["docs"]), terms=sorted(u["terms"], key=tk),
+                ranges=sorted(u["ranges"]))
 
 
 # ----------------------------------------------------------------------------- volume probe
-def volume_probe(ctx, n, corrupt=False):
-    """FieldTermNumberRange over more distinct numbers than the implementation's result buffer:
-    n documents with n distinct numbers, one observation at the end.  Expected answers come from
-    the same oracle (KVIndex_vol.cfg: wide range limits)."""
-    steps = [dict(op="AddField", f="f")]
-    docs = {}
-    for j in range(n):
-        d = "v%04d" % j
-        v = {"f": ["n", j - n // 2]}
-        docs[d] = v
-        steps.append(dict(op="AddDoc", d=d, v=v))
-    st = dict(fields=["f"], docs=docs)
-    k = skey(st)
-    answers = run_oracle(ctx, "KVIndex_vol.cfg", {k: st}, label="oracle volume n=%d" % n)
-    with open(os.path.join(SPEC, "kvindex", "KVIndex_vol.cfg")) as fh:
-        pass
-    uni = dict(fields=["f"], docs=[], terms=[["s", "a"], ["n", 0], ["n", 3]], bounds=[-1000, -3, 0, 3, 1000])
-    sts = [(None, None)] * (len(steps) - 1) + [(k, st)]
-    b = dict(steps=steps, states=sts, obs=obs_last(len(steps)), sched="only after the last step")
-    return replay_and_compare(ctx, "volume%d" % n, uni, [b], answers, jobs=1, qtimeout=4, timeout=300)
+def volume_probe(ctx, sizes):
+    """FieldTermNumberRange over more distinct numbers than the implementation's result buffer
+    holds: n documents with n distinct numbers, one observation at the end.  The expected answers
+    come from the same oracle (KVIndex_vol.cfg: wide range limits).  A query that does not return
+    is accepted as an observation only if the goroutine dump shows it blocked in a channel send
+    inside kvindex and every size reproduces it (DESIGN 3, outcome classes)."""
+    behaviours, states = [], {}
+    for n in sizes:
+        steps = [dict(op="AddField", f="f")]
+        docs = {}
+        for j in range(n):
+            d = "v%04d" % j
+            docs[d] = {"f": ["n", j - n // 2]}
+            steps.append(dict(op="AddDoc", d=d, v=docs[d]))
+        st = dict(fields=["f"], docs=docs)
+        k = skey(st)
+        states[k] = st
+        behaviours.append(Beh(steps, [(None, None)] * (len(steps) - 1) + [(k, st)], obs_last(len(steps)),
+                              "only after the last step"))
+    res_answers = run_oracle(ctx, "KVIndex_vol.cfg", states, label="oracle volume")
+    uni = run_oracle.universe
+    outs, defs = execute(ctx, "volume", uni, behaviours, "halves", jobs=1, qtimeout=4, timeout=300, fresh=True)
+    cmpr = Comparer(res_answers, defs)
+    hangs = []
+    nobs = 0
+    for i, b in enumerate(behaviours):
+        first, n1 = first_divergence(b, outs[i], cmpr, "halves")
+        nobs += n1
+        if not first:
+            continue
+        sig, what, rep = first
+        if "never-returns" in sig:
+            stack = rep["detail"].get("stack", "")
+            if "chan send" not in stack or "FieldTermNumberRange" not in stack:
+                raise Inconclusive("volume probe: a query did not return within the deadline but no kvindex goroutine is "
+                                   "blocked in a channel send:\n" + stack[:1500])
+            hangs.append((sig, what, dict(rep, steps="AddField f, then %d AddDoc with distinct numbers" % (len(b.steps) - 1),
+                                          obs="last", live="%d documents" % (len(b.steps) - 1))))
+        else:
+            rep = dict(rep, steps=rep["steps"][:3] + ["... %d steps" % len(rep["steps"])], live="(large)")
+            ctx.diverge(sig, what + " (volume probe)", rep)
+    if hangs:
+        if len(hangs) != len(behaviours):
+            raise Inconclusive("volume probe: blocking did not reproduce for every size (%d of %d)" % (len(hangs), len(behaviours)))
+        ctx.diverge(hangs[0][0], "FieldTermNumberRange never returns when more distinct numbers fall into the range than its result "
+                    "channel buffers (it fills the channel before returning it); reproduced for sizes %s" % (sizes,), hangs[0][2])
+    ctx.log("volume probe sizes %s: %d observations, %d blocked" % (sizes, nobs, len(hangs)))
+    nq = len(uni["terms"]) + 8 + len(uni["ranges"])
+    return dict(behaviours=len(behaviours), observations=nobs, nontrivial=len(behaviours), queries=nobs * nq,
+                divergent={h[0]: 1 for h in hangs})
 
 
 # ----------------------------------------------------------------------------- driver
 PLAN = {
-    # (exhaustive cfgs, [(sim cfg, walks, depth, embeddings)], volume sizes)
     "quick": dict(exh=[("KVIndex_q1.cfg", ["halves"]), ("KVIndex_q2.cfg", ["halves"])],
-                  sim=[("KVIndex_sim.cfg", 250, 24, ["halves", "extreme"])], volume=[150, 260]),
-    "thorough": dict(exh=[("KVIndex_t1.cfg", ["halves", "extreme"]), ("KVIndex_t2.cfg", ["halves"])],
-                     sim=[("KVIndex_sim.cfg", 2500, 30, ["halves", "extreme"])], volume=[150, 260]),
+                  sim=[("KVIndex_sim.cfg", 250, ["halves", "extreme"])], volume=[150, 260]),
+    "thorough": dict(exh=[("KVIndex_t1.cfg", ["halves"]), ("KVIndex_q1.cfg", ["extreme"]), ("KVIndex_t2.cfg", ["halves"])],
+                     sim=[("KVIndex_simt.cfg", 2500, ["halves", "extreme"])], volume=[150, 260]),
 }
+
+ASSUMPTIONS = [
+    "documents only carry paths that are registered when the document is added, and a path is (re-)registered only while no "
+    "live document carries it: what the index holds for documents added before a field was registered is left open by the "
+    "property (\"currently live documents\")",
+    "queries on a path that is not registered are only probed for termination, their answers are not compared",
+    "AddField of a registered path and RemoveField of an unregistered one are not generated",
+    "FieldTermNumberRange(lo,hi): numbers strictly inside must be reported, numbers outside [lo,hi] must not; whether a number "
+    "equal to a limit is reported is left open (if reported its count must be exact); lo>hi is not queried",
+    "FieldTermNumberMin/Max on a field without numbers are not compared; result order is only demanded of FieldNumbers; "
+    "GetTermMatch with maxCount=1 must return one of the matching ids",
+    "terms are strings and float64 (other JSON types make AddDoc fail as unsupported and are not generated); no empty string, "
+    "no -0.0/NaN/Inf; numbers are spec integers mapped by a strictly increasing embedding (k/2, and a table of float64 "
+    "sign/magnitude boundary values: +-MaxFloat64, +-MaxFloat64/2, +-1e200, +-1e100, +-SmallestNonzeroFloat64, 0)",
+    "documents are written with KVIndex.AddDoc; AddDocTx on a write-only batch (as kvgraph uses it) is not exercised here",
+    "store: Badger only; single client (no concurrent calls); all behaviours are screened in per-behaviour namespaces "
+    "(field path and document id renamed injectively) of shared stores with a new KVIndex object each, and every divergence "
+    "is reported only after it reproduced alone on a newly created empty store",
+]
 
 
 def run(ctx):
     try:
-        _run(ctx)
+        if ctx.replay:
+            run_replay(ctx)
+        else:
+            _run(ctx)
     finally:
         shutil.rmtree(shm_dir(ctx), ignore_errors=True)
 
 
 def _run(ctx):
-    corrupt = os.environ.get("C09_SELFTEST_CORRUPT") == "1"
-    if ctx.replay:
-        return run_replay(ctx)
     plan = PLAN[ctx.tier]
     tot = dict(behaviours=0, observations=0, nontrivial=0, queries=0)
     parts = []
@@ -476,93 +576,56 @@ def _run(ctx):
         ctx.log("%s: %d histories (all up to length %d), %d abstract states, %d replays" % (
             cfg, info["histories"], info["maxlen"], len(states), len(behaviours)))
         for emb in embs:
-            r = replay_and_compare(ctx, cfg.split(".")[0].replace("KVIndex_", ""), uni_norm(uni), behaviours, answers,
-                                   emb=emb, corrupt=corrupt)
+            r = replay_and_compare(ctx, cfg.split(".")[0].replace("KVIndex_", ""), uni_norm(uni), behaviours, answers, emb=emb)
             account(cfg, emb, r, dict(info, exhaustive=True))
         if len(ctx.cov["samples"]) < 3:
             b = behaviours[len(behaviours) // 2]
-            ctx.sample(dict(cfg=cfg, steps=b["steps"], observed=b["sched"], live_after_last_step=b["states"][-1][1],
-                            expected_answers_after_last_step=answers[b["states"][-1][0]]))
+            ctx.sample(dict(cfg=cfg, steps=b.steps, observed=b.sched, live_after_last_step=b.states[-1][1],
+                            expected_answers_after_last_step=answers[b.states[-1][0]]))
         del behaviours, answers, states
-    for cfg, num, depth, embs in plan["sim"]:
+    for cfg, num, embs in plan["sim"]:
         for n, emb in enumerate(embs):
-            uni, states, behaviours, info = gen_walks(ctx, cfg, num, depth, seed=ctx.seed * 7919 + n)
+            uni, states, behaviours, info = gen_walks(ctx, cfg, num, seed=ctx.seed * 7919 + n)
             answers = run_oracle(ctx, cfg, states, label="oracle " + cfg)
-            ctx.log("%s: %d random histories of length %d, %d abstract states" % (cfg, info["histories"], depth, len(states)))
+            ctx.log("%s: %d random histories of length %d, %d abstract states" % (cfg, info["histories"], info["maxlen"], len(states)))
             r = replay_and_compare(ctx, "sim_" + emb, uni_norm(uni), behaviours, answers, emb=emb)
             account(cfg, emb, r, dict(info, exhaustive=False))
-    hangs = 0
-    for n in plan["volume"]:
-        r = volume_probe(ctx, n)
-        account("KVIndex_vol.cfg n=%d" % n, "halves", r, dict(histories=1, maxlen=n + 1, exhaustive=False))
+            del behaviours, answers, states
+    r = volume_probe(ctx, plan["volume"])
+    account("KVIndex_vol.cfg n=%s" % plan["volume"], "halves", r, dict(histories=len(plan["volume"]), exhaustive=False))
     ctx.cov.update(
         evaluations=tot["queries"], distinct_nontrivial=tot["nontrivial"], traces_validated_against_impl=tot["behaviours"],
-        exhaustive=True, runs=parts,
-        rule="evaluations = public query calls compared (per observation: 2 GetTermMatch per universe term, FieldTerms x2, "
-             "FieldNumbers, Min, Max, one FieldTermNumberRange per limit pair lo<=hi, FieldStringTermCounts, FieldTermCounts x2, "
-             "per universe field); distinct_nontrivial = replayed (history, observation schedule) pairs in which some observed "
-             "state has a live document under a registered field; exhaustive = every history of the exhaustive cfgs up to their "
-             "length bound is replayed (the random walks and the volume probe are samples)")
-    ctx.assumptions += [
-        "documents only carry paths that are registered when the document is added, and a path is (re-)registered only while no "
-        "live document carries it: what the index holds for documents added before a field was registered is left open by the "
-        "property (\"currently live documents\")",
-        "queries on a path that is not registered are only probed for termination, their answers are not compared",
-        "AddField of a registered path and RemoveField of an unregistered one are not generated",
-        "FieldTermNumberRange(lo,hi): numbers strictly inside must be reported, numbers outside [lo,hi] must not; whether a number "
-        "equal to a limit is reported is left open (if reported its count must be exact); lo>hi is not queried",
-        "FieldTermNumberMin/Max on a field without numbers are not compared; result order is only demanded of FieldNumbers",
-        "terms are strings and float64 (other JSON types make AddDoc fail as unsupported and are not generated); no empty string, "
-        "no -0.0/NaN/Inf; numbers are spec integers mapped by a strictly increasing embedding (k/2, and a table of float64 "
-        "sign/magnitude boundary values)",
-        "documents are written with KVIndex.AddDoc; AddDocTx on a write-only batch (as kvgraph uses it) is not exercised here",
-        "store: Badger only, emptied before every history; single client (no concurrent calls)",
-    ]
+        observations=tot["observations"], exhaustive=True, runs=parts,
+        rule="evaluations = public query calls compared (per observation and universe field: GetTermMatch per universe term, "
+             "FieldTerms x2, FieldNumbers, FieldTermNumberMin, FieldTermNumberMax, one FieldTermNumberRange per limit pair, "
+             "FieldStringTermCounts, FieldTermCounts x2); distinct_nontrivial = replayed (history, observation schedule) pairs in "
+             "which some observed state has a live document under a registered field; exhaustive = every history of the "
+             "exhaustive cfgs up to their length bound is replayed (random walks and the volume probe are samples)")
+    ctx.assumptions += ASSUMPTIONS
 
 
 def run_replay(ctx):
+    """bin/check C09 --replay <file>: re-runs the stored history alone on a fresh store and compares the
+    observation after its last step with the oracle's answers for the stored live documents."""
     with open(ctx.replay) as fh:
         rep = json.load(fh)["replay"]
     steps = rep["steps"]
-    # rebuild the abstract states of the stored history with TLC is not possible without the cfg; the
-    # replay file stores the live documents of the divergent step, which is all the oracle needs
-    st = norm_state(rep["live"]) if "live" in rep else None
-    if st is None:
-        raise Inconclusive("replay file has no observed state")
+    if not isinstance(steps, list) or "live" not in rep or not isinstance(rep["live"], dict):
+        raise Inconclusive("replay file carries no complete history (volume probe: run the check itself)")
+    st = norm_state(rep["live"])
     k = skey(st)
-    cfg = "KVIndex_vol.cfg" if len(steps) > 40 else "KVIndex_sim.cfg"
-    answers = run_oracle(ctx, cfg, {k: st})
-    with open(os.path.join(SPEC, "kvindex", cfg)) as fh:
-        pass
-    if cfg == "KVIndex_vol.cfg":
-        uni = dict(fields=["f"], docs=[], terms=[["s", "a"], ["n", 0], ["n", 3]], bounds=[-1000, -3, 0, 3, 1000])
-    else:
-        uni = dict(fields=["f", "g.h"], docs=[], terms=[["s", "a"], ["s", "b"]] + [["n", n] for n in (-4, -2, -1, 0, 1, 2, 4)],
-                   bounds=[-5, -3, -1, 0, 1, 3, 5])
-    sts = [(None, None)] * (len(steps) - 1) + [(k, st)]
-    obs = rep.get("obs") or obs_last(len(steps))
-    obs = [bool(x) for x in obs[:-1]] + [True]
-    # earlier observations are executed (they change counters) but only the last one is compared
-    b = dict(steps=steps, states=[(k, st)] * len(steps), obs=obs, sched="as recorded")
-    only_last = dict(b, states=sts)
-    replay_and_compare_last(ctx, uni, only_last, answers, rep.get("emb", "halves"))
-
-
-def replay_and_compare_last(ctx, uni, b, answers, emb):
-    real_obs = list(b["obs"])
-    setup = dict(setup=True, fields=uni["fields"], terms=uni["terms"], bounds=uni["bounds"], emb=emb, qtimeout_s=4)
-    inp = ctx.write_ndjson("kvidx_replay_in.ndjson", [setup, dict(i=0, steps=b["steps"], obs=real_obs)])
-    outp = inp.replace("_in.", "_out.")
-    ctx.harness(["kvidx", "-j", "1"], input_path=inp, output_path=outp, env=shm_env(ctx))
-    o = [x for x in ctx.read_ndjson(outp) if "i" in x][0]
-    if o.get("errs"):
-        e = o["errs"][0]
-        ctx.diverge("kvindex.%s returns error" % e["op"], e["err"], dict(steps=b["steps"]))
-        return
-    defs = o.get("defs") or {}
-    last = len(b["steps"]) - 1
-    sk, st = b["states"][last]
-    probs = Comparer(ctx, answers, defs).problems(sk, st, o["o"][last])
-    for m, shape, detail in probs[:1]:
-        ctx.diverge("kvindex.%s %s" % (m, shape), "reproduced from the replay file", dict(steps=b["steps"], detail=detail))
-    ctx.log("replay: %d differing queries" % len(probs))
+    answers = run_oracle(ctx, "KVIndex_sim.cfg", {k: st})
+    uni = run_oracle.universe
+    obs = [bool(x) for x in (rep.get("obs") or obs_last(len(steps)))][:len(steps)]
+    obs[-1] = True
+    states = [(None, None)] * (len(steps) - 1) + [(k, st)]
+    b = Beh(steps, states, obs, rep.get("sched", "as recorded"))
+    outs, defs = execute(ctx, "replay", uni, [b], rep.get("emb", "halves"), jobs=1, qtimeout=4, fresh=True)
+    o = outs[0]
+    # earlier observations are executed (the count queries write) but only the last one is compared
+    o["o"] = [None] * (len(steps) - 1) + [o["o"][-1] if o.get("o") else None]
+    b.obs = obs_last(len(steps))
+    first, _ = first_divergence(b, o, Comparer(answers, defs), rep.get("emb", "halves"))
+    if first:
+        ctx.diverge(first[0], first[1] + " (reproduced from the replay file)", first[2])
+    ctx.log("replay: %s" % (first[0] if first else "no divergence"))
